@@ -1003,7 +1003,7 @@ def run_hist(ck):
                             "push whose body is malformed after its streams, push whose body stays open while other steps run and is completed or continued malformed later in any order, cache reset) "
                             "with scripted outcomes of the series and the samples insert; histories of 3..12 steps around requests above 1 MiB (a stream with a log line of 1.1 MB makes onEntries hand over the chunk collected so far while the body stays open: "
                             "begin + flush, further streams - often the same series again - with or without another flush, end or malformed continuation, each chunk's two inserts with their own scripted outcomes, "
-                            "ordinary pushes of the same series in between, up to two such requests open at once, the whole long request sent again, resets), plus 36 two-series histories whose announcement keys agree on the low / middle / high 32 bits, run through the in-process writer built by the production wiring (plugin.CreateStaticServiceRegistry: real GoCache and serializer); non-trivial = at least 2 pushes, distinct by content. ")
+                            "ordinary pushes of the same series in between, up to two such requests open at once, the whole long request sent again, resets), 30 histories enumerated over (2..4 chunks each announcing series of its own, the failing chunk, its failing insert: series / samples / both, or every series insert failing) followed by the client's second attempt (the long request again, its streams as one push, or chunk by chunk), plus 36 two-series histories whose announcement keys agree on the low / middle / high 32 bits, run through the in-process writer built by the production wiring (plugin.CreateStaticServiceRegistry: real GoCache and serializer); non-trivial = at least 2 pushes, distinct by content. ")
     ck.extra["hist_input_classes"] = hist
     ck.extra["hist_step_kinds"] = kinds
     nover = sum(1 for c in cases if c["class"].startswith("overlap"))
@@ -1019,6 +1019,19 @@ def run_hist(ck):
                                             "histories where the series insert of such a chunk failed": nfltsfail}
     ck.obligation("histories with requests above 1 MiB were generated and the parser did send their chunks mid-request, some with a failing insert of such a chunk",
                   nflush >= 20 and nflfail >= 5 and nfltsfail >= 3, "%d histories with a mid-request flush (%d chunks), %d with a failing chunk, %d with a failed series insert of a chunk" % (nflush, nchunks, nflfail, nfltsfail))
+    # the client's second attempt after a request of several chunks failed: the request was sent in >= 2 chunks, answered 5xx,
+    # and something pushed later was acknowledged (the spec oracle above judged the rows of that later push)
+    def retried(c):
+        st5 = [i for i, (st, ob) in enumerate(zip(c["steps"], c["obs"])) if st["k"] == "end" and ob["status"] >= 500]
+        return bool(flushed(c)) and bool(st5) and any(200 <= ob["status"] < 300 for ob in c["obs"][st5[0] + 1:])
+    rcases = [c for c in cases if "retry" in c["class"] and retried(c)]
+    pat = {}
+    for c in rcases:
+        nch = sum(1 for st in c["steps"][:next(i for i, st in enumerate(c["steps"]) if st["k"] == "end") + 1] if st["k"] in ("beginf", "moref", "end"))
+        pat["%d chunks" % nch] = pat.get("%d chunks" % nch, 0) + 1
+    ck.extra["hist_retry_after_chunked_request"] = {"histories": len(rcases), "by number of chunks of the failed request": pat}
+    ck.obligation("histories in which a request sent in 2..4 chunks fails on one insert (every chunk position, series / samples / both, or every series insert) and the client comes again were generated and ran as intended (5xx, then an acknowledged push)",
+                  len(rcases) >= 25, "%d such histories %s" % (len(rcases), pat))
     ck.add_samples([show_hist(c) for c in cases if len(c["steps"]) >= 2][:1])
 
 
